@@ -1,6 +1,7 @@
 import OtelVerif.Common.Line
 import OtelVerif.Model.C01
 import OtelVerif.Model.C01Err
+import OtelVerif.Model.C01Classify
 import OtelVerif.Model.C01Trace
 import OtelVerif.Model.C01Codec
 /-! driver for C01: models `c01-pq` (queue machine with deaths) and `c01-codec` (index byte codecs) -/
@@ -14,8 +15,8 @@ def optS : Option Nat → String
 
 def listS (l : List String) (sep : String) : String := if l.isEmpty then "-" else sep.intercalate l
 
-def showStore (s : Store) : String :=
-  let items := (List.range (s.W + 2)).filterMap (fun i =>
+def showStore (s : Store) (hi : Nat := 0) : String :=
+  let items := (List.range (max hi (s.W + 2))).filterMap (fun i =>
     match s.items i with
     | some r => some s!"{i}:{r.id}/{r.size}"
     | Option.none => Option.none)
@@ -30,6 +31,9 @@ def showRes : Res → String
   | .none => "none"
   | .offerOk => "ok"
   | .offerFull => "full"
+  | .offerBlocked => "blocked"
+  | .offerTooLarge => "toolarge"
+  | .offerCancelled => "cancelled"
   | .readItem i r => s!"item:{i}:{r.id}/{r.size}"
   | .readStopped => "stopped"
   | .readEmpty => "empty"
@@ -82,11 +86,14 @@ structure DS where
   corrupted : Bool := false                  -- the harness deleted a stored item behind the queue's back (extension)
   dropTags : List (Nat × String) := []       -- requests the MODEL says the code gives up on a storage error (id ↦ where)
   errLoss : Option String := Option.none     -- first such request actually lost on the implementation
+  hi : Nat := 0                              -- keys below `hi` are dumped (largest write index seen + 2)
+  errInjected : Bool := false                -- some storage call of this case was made to return an error (extension)
+  classBad : Option String := Option.none    -- an error tree whose classification by the Lean model differs from the script
 
 def DS.c (s : DS) : Cfg := s.ce.base
 
-def obsLine (res : String) (c : Cfg) : String :=
-  s!"obs r={res} size={showSize c} {showStore c.st}"
+def obsLine (res : String) (c : Cfg) (hi : Nat := 0) : String :=
+  s!"obs r={res} size={showSize c} {showStore c.st hi}"
 
 /-- `3:7/2;4:9/1` → [(3,7),(4,9)] -/
 def parseItems (v : String) : Option (List (Nat × Nat)) :=
@@ -112,10 +119,11 @@ def pqOnOp (s : DS) (toks : List String) : DS × List String :=
   let errs := ((kv toks "errs").bind parseList).getD []
   let finish (l : Label) (okRes : Cfg → String) : DS × List String :=
     let (ce', died, tags) := runOp s.ce l die errs
-    ({ s with ce := ce', dropTags := tags ++ s.dropTags }, [obsLine (if died then "died" else okRes ce'.base) ce'.base])
+    let hi := max s.hi (ce'.base.st.W + 2)
+    ({ s with ce := ce', dropTags := tags ++ s.dropTags, hi := hi, errInjected := s.errInjected || !errs.isEmpty }, [obsLine (if died then "died" else okRes ce'.base) ce'.base hi])
   match toks.head? with
   | some "start" => if alive then (s, ["obs bad-op"]) else finish .start (fun _ => "ok")
-  | some "exit" => ({ s with ce := fireE s.ce (.op .crash) }, [obsLine "ok" (fire s.c .crash)])
+  | some "exit" => ({ s with ce := fireE s.ce (.op .crash) }, [obsLine "ok" (fire s.c .crash) s.hi])
   | some "offer" =>
     match kvNat toks "id", kvNat toks "sz" with
     | some id, some sz => if !alive then (s, ["obs bad-op"]) else finish (.offer ⟨id, sz⟩) (fun c => showRes c.res)
@@ -130,17 +138,31 @@ def pqOnOp (s : DS) (toks : List String) : DS × List String :=
       | Option.none => (s, ["obs bad-op"])
     | _, _ => (s, ["obs bad-op"])
   | some "shutdown" => if !alive then (s, ["obs bad-op"]) else finish .shutdown (fun c => showRes c.res)
+  | some "wake" => if !alive then (s, ["obs bad-op"]) else finish .wake (fun c => showRes c.res)
+  | some "cancel" =>
+    match kvNat toks "j" with
+    | some j => if !alive then (s, ["obs bad-op"]) else finish (.cancel j) (fun c => showRes c.res)
+    | Option.none => (s, ["obs bad-op"])
   | some "corrupt" =>
     match kvNat toks "key" with
     | some key =>
       let c' := { s.c with st := { s.c.st with items := upd s.c.st.items key Option.none } }
-      ({ s with ce := { s.ce with base := c' }, corrupted := true }, [obsLine "ok" c'])
+      ({ s with ce := { s.ce with base := c' }, corrupted := true }, [obsLine "ok" c' s.hi])
     | Option.none => (s, ["obs bad-op"])
   | _ => (s, ["obs bad-op"])
 
 /-- the search oracle: consumes the IMPLEMENTATION's observation of the last op -/
 def pqOnObs (s : DS) (toks : List String) : DS :=
   match toks with
+  | ["tr", "errtree", shape] =>
+    -- the error tree the harness hands to OnDone for the `done` op just read: `outcomeOf` must agree with its `oc`
+    let want : Option Outcome := match kv s.lastOp "oc" with
+      | some "shut" => some .shutdownErr
+      | some _ => some .final
+      | Option.none => Option.none
+    match parseShape shape, want with
+    | some t, some w => if outcomeOf t = w then s else { s with classBad := some shape }
+    | _, _ => { s with classBad := some ("unparsable:" ++ shape) }
   | "obs" :: rest =>
     let opk := s.lastOp.head?.getD "?"
     let r := (kv rest "r").getD "?"
@@ -153,7 +175,7 @@ def pqOnObs (s : DS) (toks : List String) : DS :=
         | _, _ => []
       else []
     let implOut1 := if opk = "done" then (match kvNat s.lastOp "i" with | some i => s.implOut.filter (fun p => p.1 != i) | Option.none => s.implOut) else s.implOut
-    let evs2 : List Ev := if opk = "offer" ∧ r = "ok" then (match kvNat s.lastOp "id" with | some id => [Ev.accept id] | Option.none => []) else []
+    let evs2 : List Ev := if (opk = "offer" ∨ opk = "wake") ∧ r = "ok" then (match kvNat s.lastOp "id" with | some id => [Ev.accept id] | Option.none => []) else []
     let hand : Option (Nat × Nat) :=
       if opk = "read" ∧ r.startsWith "item:" then
         match r.splitOn ":" with
@@ -192,16 +214,12 @@ def pqOnObs (s : DS) (toks : List String) : DS :=
 
 def pqOnEnd (s : DS) : List String :=
   if s.corrupted then [] else   -- the property is not claimed when storage contents vanish; differential only
-  if s.ce.poisoned then
-    -- the first call of a start-up failed: the code restarts both indexes from 0 over the stored data
-    match s.ts.accepted.find? (fun id => !(s.ts.finalised.contains id) && !(s.ts.handed.contains id)) with
-    | some id => [s!"prop errloss=FAIL sig=C01/err/start-index-read-error-resets-queue id={id} accepted request lost after Batch(get ri, get wi) returned an error"]
-    | Option.none => []
-  else
-  let errl := match s.errLoss with
-    | some e => [s!"prop errloss=FAIL sig=C01/err/{e} request given up after a storage error (not a death) and lost"]
-    | Option.none => ["prop errloss=ok"]
-  errl ++
+  -- storage calls that return an error are outside the property's quantifier (it speaks of process deaths): such
+  -- cases are an extension tied by the exact differential only; the property oracles judge error-free scripts
+  (match s.classBad with
+   | some sh => [s!"prop classify=FAIL sig=C01/classify/model-tree-classification-disagrees shape={sh}"]
+   | Option.none => []) ++
+  if s.errInjected || s.ce.poisoned then [] else
   let stored := match s.bad, s.lostAt with
     | some b, _ => s!"prop stored=FAIL sig=C01/harness/unparsable {b}"
     | Option.none, some l => s!"prop stored=FAIL sig=C01/{l} accepted request neither finalised nor recoverable from storage"
@@ -216,7 +234,8 @@ def pqHandler : Handler DS where
   onCase := fun s toks =>
     let cap := (kvNat toks "cap").getD 0
     let rs := (kv toks "sizer").getD "req" == "req"
-    { s with ce := initE { cap := cap, reqSized := rs } }
+    let blk := (kvNat toks "block").getD 0 == 1
+    { s with ce := initE { cap := cap, reqSized := rs, block := blk } }
   onOp := pqOnOp
   onObs := pqOnObs
   onEnd := pqOnEnd
